@@ -463,6 +463,59 @@ fn schedules(ctx: &Ctx) {
         U64,
         Straddle,
     }
+    // the same race through the buffer interface (8-byte aligned local buffers) and with two readers
+    for (via_slice, readers) in [(true, 1usize), (false, 2), (true, 2)] {
+        let outcomes: Mutex<BTreeSet<String>> = Mutex::new(BTreeSet::new());
+        let stats = explore_seq(if readers == 2 { Some(3) } else { None }, |ex: &mut Explorer| {
+            let m = Arc::new(GuestMemoryMmap::<()>::from_ranges(&[(GuestAddress(0x1000), 32)]).unwrap());
+            let seen: Arc<Mutex<Vec<u64>>> = Arc::new(Mutex::new(Vec::new()));
+            let a = GuestAddress(0x1008);
+            let m1 = m.clone();
+            let mut bodies: Vec<ThreadBody> = vec![Box::new(move || {
+                for k in 0..2 {
+                    let v: u64 = if k % 2 == 0 { u64::MAX } else { 0 };
+                    if via_slice {
+                        let buf = [v; 1];
+                        // SAFETY: u64 array viewed as bytes
+                        let bytes = unsafe { std::slice::from_raw_parts(buf.as_ptr() as *const u8, 8) };
+                        m1.write_slice(bytes, a).unwrap();
+                    } else {
+                        m1.write_obj(v, a).unwrap();
+                    }
+                }
+            })];
+            for _ in 0..readers {
+                let (m2, s2) = (m.clone(), seen.clone());
+                bodies.push(Box::new(move || {
+                    let mut buf = [0u64; 1];
+                    if via_slice {
+                        // SAFETY: u64 array viewed as bytes
+                        let bytes = unsafe { std::slice::from_raw_parts_mut(buf.as_mut_ptr() as *mut u8, 8) };
+                        m2.read_slice(bytes, a).unwrap();
+                    } else {
+                        buf[0] = m2.read_obj::<u64>(a).unwrap();
+                    }
+                    s2.lock().unwrap().push(buf[0]);
+                }));
+            }
+            let res = run_threads(ex, bodies, 1000);
+            let vals = seen.lock().unwrap().clone();
+            outcomes.lock().unwrap().insert(format!("{:x?}", vals));
+            if !res.ok() {
+                ctx.fail("C06/schedule/buffer-interface/no-progress-or-panic", &format!("{:?}", res.panics), json!({"schedule": ex.current_choices()}));
+                return false;
+            }
+            if let Some(v) = vals.iter().find(|v| **v != 0 && **v != u64::MAX) {
+                ctx.fail(&format!("C06/schedule/{}-{}-readers/torn-value-observed", if via_slice { "write_slice" } else { "write_obj" }, readers), &format!("a reader observed {:#x}", v), json!({"via_slice": via_slice, "readers": readers, "schedule": ex.current_choices(), "trace": res.normalized()}));
+                return false;
+            }
+            true
+        });
+        ctx.add_traces(stats.executions);
+        ctx.add_states(stats.nodes);
+        ctx.add_transitions(stats.nodes);
+        ctx.sample(json!({"harness": format!("writer flips an aligned u64 via {} || {} reader(s)", if via_slice { "write_slice/read_slice" } else { "write_obj/read_obj" }, readers), "schedules": stats.executions, "preemption_bound": if readers == 2 { "3" } else { "unbounded" }, "distinct_outcomes": outcomes.lock().unwrap().len()}));
+    }
     for (w, addr) in [(W::U16, 0x1002u64), (W::U32, 0x1004), (W::U64, 0x1008), (W::U64, 0x1010), (W::Straddle, 0x1008)] {
         let outcomes: Mutex<BTreeSet<String>> = Mutex::new(BTreeSet::new());
         let steps: Mutex<BTreeSet<Vec<usize>>> = Mutex::new(BTreeSet::new());
